@@ -96,8 +96,9 @@ class Run:
         new, hits = [], {}
         for v in self.viol:
             k = v.get("key") or C.viol_key(v)
-            if k in known:
-                hits.setdefault(known[k], []).append(v)
+            g = C.known_lookup(known, k)
+            if g is not None:
+                hits.setdefault(g, []).append(v)
             else:
                 new.append(v)
         for g, vs in sorted(hits.items()):
@@ -462,7 +463,7 @@ def c13(ctx):
     q = ctx.quick
     d = os.path.join(ctx.work, "rec-ranges")
     t = time.time()
-    C.run([C.VT, "ranges", "--universe", "gap+chunk", "--single", "1/150" if q else "1/40", "--chunk-bytes", "80",
+    C.run([C.VT, "ranges", "--universe", "gap+chunk", "--single-fixed", "1/40", "--single", "1/4" if q else "1/1", "--chunk-bytes", "80",
            "--chunk-frac", "1/6" if q else "1/1", "--seed", str(ctx.seed), "--max-doc", "70" if q else "80",
            "--cfgs", "40:2:2:0" if q else "40:2:2:0,0:4:2:0", "--outdir", d, "--shards", "12",
            "--verif", C.VERIF, "--fixtures", os.path.join(C.REPO, "tests", "fixtures")], timeout=3000)
@@ -472,21 +473,26 @@ def c13(ctx):
     # erroneous documents: refusal / no panic
     d2 = os.path.join(ctx.work, "rec-ranges-err")
     mut = os.path.join(ctx.work, "damaged.ndjson")
-    import random
-    rnd = random.Random(ctx.seed)
+    import hashlib
+
+    def hx(x):
+        return int(hashlib.sha256(x.encode()).hexdigest()[:12], 16)
+
+    # damaged documents: a fixed (seed-independent) tenth of the recorded documents, damaged at a position derived from
+    # the digest of the id; quick takes a seed-selected part of them
     with open(mut, "w") as f:
-        n = 0
         for line in open(os.path.join(d, "inputs.ndjson")):
             r = json.loads(line)
-            if n >= (150 if q else 1200):
-                break
             t0 = r["text"]
-            if len(t0) < 4:
+            if len(t0) < 4 or hx("fixed|" + r["id"]) % 10 != 0:
                 continue
-            k = (hash(r["id"]) + ctx.seed) % (len(t0) - 1)
+            if q and hx("%d|%s" % (ctx.seed, r["id"])) % 2 != 0:
+                continue
+            k = hx("pos|" + r["id"]) % (len(t0) - 1)
+            while not (t0[:k] + t0[k:]).isprintable() and False:
+                k -= 1
             for j, dmg in enumerate([t0[:k] + t0[k + 1:], t0[:k] + "(" + t0[k:], t0[:k] + "\"" + t0[k:], t0[:k]]):
                 f.write(json.dumps({"id": "dmg:%s:%d" % (r["id"], j), "text": dmg}) + "\n")
-            n += 1
     C.run([C.VT, "ranges", "--universe", "file", "--input", mut, "--max-doc", "90", "--cfgs", "40:2:2:0", "--trees", "false",
            "--outdir", d2, "--shards", "4"], timeout=3000)
     d4 = os.path.join(ctx.work, "rec-ranges-nl")
